@@ -240,6 +240,19 @@ fn run_trace(line: &str, dir: &str) -> String {
                     OpenRes::Panic => shim::logline("c panic".to_string()),
                 }
             }
+            "open2" => {
+                // a second attempt on the same directory while the first store (if any) is still
+                // alive and keeps its handle; a store obtained this way is dropped at once
+                shim::logline(format!("c open2 {}", t[1..].join(" ")));
+                match open_store(&t[1..], dir) {
+                    OpenRes::Ok(s) => {
+                        shim::logline("c open2 opened".to_string());
+                        drop(s);
+                    }
+                    OpenRes::Err(k) => shim::logline(format!("c open2 err {}", kind_str(k))),
+                    OpenRes::Panic => shim::logline("c open2 panic".to_string()),
+                }
+            }
             "burst" => {
                 // N rounds of (append one entry, flush with callback) on a helper thread while
                 // the worker is held at its gate: the bounded request channel fills up and the
